@@ -30,7 +30,7 @@ func (C13) Info() core.Info {
 	return core.Info{
 		Rule:        "planned and random worlds (all label features, converters in every form, generators, defaults, duplicate keys) to whose target 1-2 hopeless parameters are added (sometimes the judged call is preceded by a call of a second Func whose defaults are a prefix of the same defaults slice): no supplied label and no output slot of any converter PERMIT-matches them. Oracle on the returned error: it is the unsatisfied-argument type; Args contains every hopeless parameter; every element of Args is a parameter of the target without an exactly matching supplied value and outside the EXPECT fixpoint; Inputs equals the supplied values as a multiset of labels (after last-wins de-duplication); Converters contains every supplied converter (by function identity); the message contains the rendering of each missing argument. All list comparisons are order-insensitive (S1 decides their order). Non-trivial: >=1 converter and >=1 supplied value; distinct = distinct (world shape, event-log hash)",
 		Assumptions: []string{"a converter given as a raw function is identified by its function pointer, one given as *Func by pointer identity"},
-		Probes:      []string{"c13_errors_checked", "c13_args_with_derivable_sibling", "c13_inputs_nonempty", "c13_converters_nonempty", "c13_duplicate_keys", "c13_same_signature_converters", "c13_after_call_of_prefix_sharing_func", "s1_nonidentity_perms"},
+		Probes:      []string{"c13_errors_checked", "c13_args_with_derivable_sibling", "c13_inputs_nonempty", "c13_converters_nonempty", "c13_duplicate_keys", "c13_same_signature_converters", "c13_after_call_of_prefix_sharing_func", "c13_after_successful_call_of_once_target", "s1_nonidentity_perms"},
 		Real:        realComponents,
 		Simulated:   simComponents,
 	}
@@ -188,6 +188,25 @@ func (C13) Gen(r *simrt.RNG, tier string) core.Case {
 			w.Ops = append([]world.Op{{Kind: world.OpCall, Target: len(w.Parties) - 1, Args: args2}}, w.Ops...)
 		}
 	}
+	// a run-once target that has already run must still report what is missing
+	if len(w.Ops) == 1 && r.Chance(1, 8) {
+		for pi := range w.Parties {
+			w.Parties[pi].Once = pi == 0
+		}
+		first := world.Op{Kind: world.OpCall, Target: 0, Args: append([]int{}, w.Ops[0].Args...)}
+		for _, s := range w.Parties[0].In {
+			a := world.ArgSpec{Kind: world.ArgTyped, Label: s.Label}
+			if world.IsIface(s.Type) {
+				a.Label.Type = world.Implementors(s.Type)[0]
+			}
+			if s.Name != "" {
+				a.Kind, a.Spell = world.ArgNamed, s.Name
+			}
+			w.Args = append(w.Args, a)
+			first.Args = append(first.Args, len(w.Args)-1)
+		}
+		w.Ops = []world.Op{first, w.Ops[0]}
+	}
 	return RCase{W: w}
 }
 
@@ -265,8 +284,11 @@ func (C13) Run(c core.Case, ctx *core.Ctx) []core.Violation {
 			return nil
 		}
 		res := rt.Results[last]
-		if last > 0 {
+		if last > 0 && w.Ops[0].Target != tgt {
 			ctx.St.Inc("c13_after_call_of_prefix_sharing_func")
+		}
+		if last > 0 && w.Ops[0].Target == tgt && rt.Results[0].Returned && rt.Results[0].Err == nil {
+			ctx.St.Inc("c13_after_successful_call_of_once_target")
 		}
 		switch {
 		case !res.Returned:
